@@ -26,6 +26,7 @@ class IrqMonitor:
         self.stats = {"entries": 0, "retis": 0, "halt_steps": 0, "off_steps": 0, "eligible_boundaries": 0,
                       "sw_irq": 0, "wakes": 0}
         self.injected_isr = 0
+        self.flag_drop = None               # where the model's private "pending" flag last went True -> False
 
     # ------------------------------------------------------------------------------------------
     def _v(self, clause, **detail):
@@ -41,6 +42,8 @@ class IrqMonitor:
         if a is None:
             return
         if kind == "obs":
+            if a.get("pending") and not b.get("pending"):
+                self.flag_drop = "event:" + (str(injected[0]) if injected else "?")
             # an injected event must not execute anything
             if b["pc"] != a["pc"] or b["S"] != a["S"]:
                 self._v("event_injection_moved_cpu", a_pc=a["pc"], b_pc=b["pc"])
@@ -126,13 +129,16 @@ class IrqMonitor:
         else:
             if b["irq_total"] != a["irq_total"] and executed != OP_IR:
                 self._v("counter_without_entry", before=a["irq_total"], after=b["irq_total"], pc=a["pc"], S=(a["S"], b["S"]))
+        if a.get("pending") and not b.get("pending"):
+            self.flag_drop = "entry" if entry else ("reti" if did_reti else "step")
         # ---------------- bounded progress -------------------------------------------------------------------
         if not entry and self.eligible(a) and self.eligible(b):
             self.eligible_run += 1
             self.stats["eligible_boundaries"] += 1
             if self.eligible_run >= K_PROGRESS:
                 self._v("pending_unmasked_request_not_delivered", imr=b["imr"], isr=b["isr"], pc=b["pc"],
-                        boundaries=self.eligible_run + 1, model_pending_flag=b.get("pending"))
+                        boundaries=self.eligible_run + 1, model_pending_flag=b.get("pending"),
+                        flag_dropped_at=self.flag_drop)
                 self.eligible_run = 0
         elif not self.eligible(b):
             self.eligible_run = 0
